@@ -62,6 +62,8 @@ def main():
     import engine
     p = load(a.prop)
     if a.replay:
+        if hasattr(p, 'replay'):
+            sys.exit(p.replay(a.replay, a.repo))
         sys.exit(engine.replay(p, a.replay, a.repo))
     seed = int(os.environ.get('VERIF_SEED', '1'))
     tier = a.tier if a.tier in ('quick', 'thorough') else 'quick'
